@@ -95,13 +95,17 @@ func genValue(r *sim.R, ctr *int, depth int) string {
 	if depth >= 2 {
 		w[4], w[5] = 0, 0
 	}
+	if depth == 0 && t.Chance(1, 12, "val-with-equals") {
+		// the value starts after the first '=': it may hold more of them
+		return []string{"http://h/?pretty=true&n=" + strconv.Itoa(n), "k=v" + strconv.Itoa(n), "\"a == b\"", "[zone=a, " + strconv.Itoa(n) + "]", "=="}[t.Choose(5, "equals-shape")]
+	}
 	switch t.Weighted(w, "val-kind") {
 	case 0:
 		return strconv.Itoa(100 + n)
 	case 1:
 		return "v" + strconv.Itoa(n)
 	case 2:
-		return []string{"true", "false", "null"}[t.Choose(3, "val-kw")]
+		return []string{"true", "false", "null", "NaN", "+Inf"}[t.Choose(5, "val-kw")]
 	case 3:
 		return strconv.Quote("q " + strconv.Itoa(n))
 	case 4:
@@ -244,6 +248,13 @@ func Run(r *sim.R, maxSets int) {
 	} else {
 		mcfg = ucfg.New()
 	}
+	// the caller's option slice has spare capacity and a longer view of the same array exists
+	// (options kept in one array, handed out as sub-slices): nothing may write into it
+	backing := make([]ucfg.Option, len(o.opts), len(o.opts)+3)
+	copy(backing, o.opts)
+	longer := append(backing, ucfg.PathSep("."), ucfg.VarExp)
+	watch := optionPointers(longer)
+	o.opts = backing
 	var fv *flag.FlagValue
 	var table map[string]fileEntry
 	var loaderCalls int
@@ -346,8 +357,20 @@ func Run(r *sim.R, maxSets int) {
 			}
 		}
 		compare(r, fv, def, mcfg, o, arg)
+		if now := optionPointers(longer); now != watch {
+			r.Fail("accumulate", "Set", "Set(%q) wrote into the option array of its caller (a longer view of the slice the flag was created with changed)", arg)
+		}
 	}
 	_ = loaderCalls
+}
+
+// optionPointers identifies the Option values of a slice (functions cannot be compared otherwise).
+func optionPointers(opts []ucfg.Option) string {
+	var b strings.Builder
+	for _, o := range opts {
+		fmt.Fprintf(&b, "%x,", reflect.ValueOf(o).Pointer())
+	}
+	return b.String()
 }
 
 func checkOptions(r *sim.R, fv *flag.FlagValue, o optSet) {
@@ -542,14 +565,19 @@ func compare(r *sim.R, fv *flag.FlagValue, def, mcfg *ucfg.Config, o optSet, arg
 	if def != nil && fv.Config() != def {
 		r.Fail("accumulate", "Set", "the flag does not write through to the default config it was given")
 	}
-	// String() is the JSON of the accumulated config (it may latch an error: do it on copies only when error-free)
-	if werr == nil && fv.Error() == nil {
-		var s string
-		r.MustComplete("String", func() { s = fv.String() })
+	// String() is the JSON of the accumulated config when it can be rendered (no NaN, every
+	// reference resolves); in any case it is a read: it changes neither Error() nor what later
+	// arguments do (checked by the next compare)
+	before := fv.Error()
+	var s string
+	r.MustComplete("String", func() { s = fv.String() })
+	if after := fv.Error(); (before == nil) != (after == nil) {
+		r.Fail("first-error", "String", "String() changed Error() from %v to %v: a value that can not be rendered is not a failed argument", before, after)
+	}
+	if werr == nil && before == nil {
 		var m map[string]interface{}
 		mcfg.Unpack(&m, o.opts...)
-		js, _ := json.Marshal(m)
-		if s != string(js) {
+		if js, jerr := json.Marshal(m); jerr == nil && s != string(js) {
 			r.FailD("string", "String", map[string]string{"got": s, "want": string(js)}, "String() = %s, the accumulated config is %s", s, js)
 		}
 	}
